@@ -81,9 +81,30 @@ CONTRACTS.append(Contract(
     modifies=lambda c: [(SUBOPS, OPT_OP.val(op_of(c)))],
 ))
 CONTRACTS[-1].lock_guards = {SUBOPS: '_lock'}
+# marker ghost: "the fence (re-check of the finished flag under the lock) was passed"
+CONTRACTS[-1].ghost_updates = lambda c: {'fence_n': c.gold('fence_n') + 1}
+
+
+def fence_exit(eng, st, ctrl, v):
+    """C17 (structural half of the racing clause): a public method that got past its entry check
+    re-checks the finished flag under the builder's lock (_append_suboperation) before any value
+    or exception of its own leaves it -- so a call that was in flight when the function finished
+    cannot deliver a result.  The interleaving argument itself is not machine-checked."""
+    from pyvc.engine import Ctx
+    if ctrl not in ('ret', 'ok', 'exc'):
+        return []
+    c = Ctx(eng, eng.entry_state, st, eng.cur_args, entry=eng.entry_state)
+    passed = eng.gread(st, 'fence_n') > eng.gread(eng.entry_state, 'fence_n')
+    if ctrl == 'exc':
+        # refusals at the entry check (finished builder, ill-typed argument) need no re-check;
+        # KeyboardInterrupt & co. are outside the statement
+        need = And(Not(finished(c)), exc_issub(v.cls, 'OSError'))
+        return [('os-errors-leave-only-through-the-fence', Implies(need, passed), ['C17'])]
+    return [('results-leave-only-through-the-fence', passed, ['C17'])]
+
 
 CONTRACTS.append(Contract(
-    M + '_sanitize_filename', props=['C07', 'C15', 'C17'],
+    M + '_sanitize_filename', props=['C07', 'C15', 'C17', 'C10', 'C08'],
     params={'filename': PYV}, returns=STR,
     requires=lambda c: [('wf', J.wf(c.filename))],
     ensures=lambda c: [
@@ -349,6 +370,18 @@ def bv_mkdtemp_guard(eng, st, args):
             ('bookkeeping-knows-the-previous-created-dirs', ForAll([xs_], (
                 mr[xs_] == eng.hread(st, 'Cache._created_dirs', oc.t)[xs_])), ['C12', 'C04', 'C03']),
         ]
+    nc, sv = env.get('new_cache'), env.get('sanitized_versions')
+    if isinstance(nc, Sym) and isinstance(sv, Sym):
+        # C06 ("names absent from the map have version None", "a version change invalidates"):
+        # the cache of this build records exactly the versions it was given -- the JSON form of
+        # the `versions` argument, nothing carried over from anywhere else
+        bd_facts = bd_facts + [
+            ('new-cache-records-exactly-the-given-versions',
+             And(eng.hread(st, 'Cache._func_versions', nc.t) == sv.t, sv.t == J.rt(vers.t)),
+             ['C06', 'C16'])]
+    else:
+        bd_facts = bd_facts + [('new-cache-records-exactly-the-given-versions',
+                                z3.BoolVal(False), ['C06', 'C16'])]
     return bd_facts + [
         ('name-is-str', J.is_str(J.base_of(bn.t)), ['C15']),
         ('func-callable', func.is_callable, ['C15']),
@@ -391,7 +424,7 @@ def root_builders_closed(c):
 
 
 CONTRACTS.append(guard_set(Contract(
-    M + 'build_versioned', props=['C15', 'C17', 'C12', 'C04', 'C03'],
+    M + 'build_versioned', props=['C15', 'C17', 'C12', 'C04', 'C03', 'C06'],
     params={'cache_filename': PYV, 'build_name': PYV, 'versions': PYV, 'func': callback(),
             'args': VARARGS, 'kwargs': KWARGS},
     returns=PYV,
@@ -467,6 +500,7 @@ CONTRACTS.append(Contract(
                                     'SimpleOperation.exception_type_str', SUBOPS],
 ))
 CONTRACTS[-1].fresh_props = ['C11', 'C05']
+CONTRACTS[-1].exit_obligations = fence_exit
 
 # _build_file / _subbuild as seen by their callers (bodies verified separately)
 # (_build_file's contract is defined with its verification further below)
@@ -572,7 +606,8 @@ SUBBUILD_INNER = Contract(
         ('args-sanitized', J.sanitized(c.old('Operation.args', OPT_OP.val(op_of(c))))),
         ('kwargs-sanitized', J.sanitized(c.old('ComplexOperation.kwargs', OPT_OP.val(op_of(c))))),
         ('func-callable', c.args['func'].is_callable),
-        ('record-is-new', z3.Length(c.old(SUBOPS, OPT_OP.val(op_of(c)))) == 0)]
+        ('record-is-new', And(z3.Length(c.old(SUBOPS, OPT_OP.val(op_of(c)))) == 0,
+                              Not(c.old('ComplexOperation.raised', OPT_OP.val(op_of(c))))))]
     + build_state_wf(c),
     ensures=lambda c: [('closed', c.new('Operation.is_finished', OPT_OP.val(op_of(c)))),
                        ('function-skipped-only-if-version-unchanged', Implies(
@@ -581,7 +616,15 @@ SUBBUILD_INNER = Contract(
                        ] + append_only(c, True),
     raises=[ExcSpec('RuntimeError', when=subbuild_taken, guarded=True, forces=True,
                     ensures=no_effect, modifies=NOTHING, props=['C08']),
-            ExcSpec('BaseException', when=lambda c: Not(subbuild_taken(c)), guarded=True,
+            ExcSpec('Exception', when=lambda c: Not(subbuild_taken(c)), guarded=True,
+                    ensures=lambda c: append_only(c, True) + [
+                        ('raised-iff-function-called',
+                         c.new('ComplexOperation.raised', cur_op(c))
+                         == (c.gnew('ncalls') > c.gold('ncalls')), ['C08', 'C10']),
+                        ('setup-flag-untouched',
+                         c.new('ComplexOperation.setup_failed', cur_op(c))
+                         == c.old('ComplexOperation.setup_failed', cur_op(c)), ['C08'])]),
+            ExcSpec('KeyboardInterrupt', when=lambda c: Not(subbuild_taken(c)), guarded=True,
                     ensures=lambda c: append_only(c, True))],
     modifies=builder_mods,
 )
@@ -617,9 +660,21 @@ def cur_op(c):
 
 # (_apply_cached_suboperations: contract with its verification at the end of the module)
 
+def in_progress(e):
+    """cache entry of a file whose building has started and not finished"""
+    return And(CA.OO.is_some(e), CA.OI.is_none(CA.OO.val(e)))
+
+
 USE_CACHED = Contract(
     'file_builder.cache.Cache.use_cached_operation', props=['C08', 'C01'], trusted=True,
     params={'self': OBJ('Cache'), 'operation': OBJ('ComplexOperation')},
+    ensures=lambda c: [
+        # a reuse registers finished records; it never creates (or resolves) a claim in progress
+        ('claims-in-progress-unchanged', ForAll([xs_], And(
+            in_progress(c.new('Cache._norm_cased_files', c.self)[xs_])
+            == in_progress(c.old('Cache._norm_cased_files', c.self)[xs_]),
+            in_progress(c.new('Cache._files', c.self)[xs_])
+            == in_progress(c.old('Cache._files', c.self)[xs_]))))],
     raises=[ExcSpec('RuntimeError', modifies=NOTHING)],
     modifies=lambda c: [('Cache._files', c.self), ('Cache._norm_cased_files', c.self),
                         ('Cache._subbuilds', c.self)],
@@ -665,6 +720,8 @@ SUBBUILD_PUB = Contract(
     modifies=builder_mods,
     lemmas=['rt_sanitized'],
 )
+SUBBUILD_PUB.exit_obligations = lambda eng, st, ctrl, exc: (bfwc_exit(eng, st, ctrl, exc)
+                                                            + fence_exit(eng, st, ctrl, exc))
 SUBBUILD_PUB.fresh_props = ['C11']
 CONTRACTS.append(SUBBUILD_PUB)
 
@@ -683,6 +740,24 @@ BFWC = Contract(
     modifies=builder_mods,
     lemmas=['rt_sanitized'],
 )
+def bfwc_exit(eng, st, ctrl, exc):
+    """C08/C10 (what the cache may replay later): when build_file* fails with an Exception, its
+    record is marked raised, and it is marked `setup_failed` exactly when the user function was
+    never called (no callback happened during the call) -- only such records are dropped from the
+    cache and retried by the next build; a failure of the function itself is cached"""
+    sub = st.env.get('suboperation')
+    if ctrl != 'exc' or not isinstance(sub, Sym):
+        return []
+    is_exception = exc_issub(exc.cls, 'Exception')
+    called = eng.gread(st, 'ncalls') > eng.gread(eng.entry_state, 'ncalls')
+    return [('failed-attempt-marked-raised', Implies(is_exception, eng.hread(st, RAISED, sub.t)),
+             ['C08', 'C10', 'C01']),
+            ('setup-failed-iff-function-never-called', Implies(
+                is_exception, eng.hread(st, SETUPF, sub.t) == Not(called)), ['C08', 'C10', 'C01'])]
+
+
+BFWC.exit_obligations = lambda eng, st, ctrl, exc: (bfwc_exit(eng, st, ctrl, exc)
+                                                    + fence_exit(eng, st, ctrl, exc))
 BFWC.fresh_props = ['C11']
 CONTRACTS.append(BFWC)
 
@@ -717,6 +792,10 @@ def recorded(c, st='new'):
     return rd(NCF, nc)[fn] == CA.OO.some(CA.OI.some(cur_op(c)))
 
 
+def my_filename(c):
+    return c.old('BuildFileOperation.filename', cur_op(c))
+
+
 REBUILD = Contract(
     M + '_rebuild_file', props=['C10', 'C11', 'C07', 'C17', 'C13', 'C03', 'C02'],
     params={'self': FB, 'func': callback()},
@@ -735,9 +814,16 @@ REBUILD = Contract(
         ('closed', c.new('Operation.is_finished', cur_op(c)), ['C17', 'C10']),
         ('marked-raised', c.new('ComplexOperation.raised', cur_op(c)), ['C10']),
         ('failed-output-stays-invisible', recorded(c), ['C04', 'C10']),
+        # C10 ("parent directories this call created are removed at once in the virtual view"):
+        # the reservation of the target is given back
+        ('failed-call-releases-its-reservation', Not(c.gnew('bd_resv')[my_filename(c)]),
+         ['C10', 'C14', 'C04']),
+        ('function-was-called', c.gnew('ncalls') > c.gold('ncalls'), ['C10', 'C08']),
+        ('setup-flag-untouched', c.new(SETUPF, cur_op(c)) == c.old(SETUPF, cur_op(c)),
+         ['C08', 'C10']),
     ] + append_only(c, True)),
         ExcSpec('KeyboardInterrupt', ensures=lambda c: append_only(c, True))],
-    modifies=builder_mods,
+    modifies=lambda c: builder_mods(c) + ['g:bd_resv'],
 )
 REBUILD.exit_obligations = lambda eng, st, ctrl, v: same_user_exception(eng, st, ctrl, v)
 REBUILD.callback_havoc = cb_havoc_builder
@@ -1468,9 +1554,16 @@ TRY_REUSE = Contract(
             c.new(SETUPF, cur_op(c)) == c.old(SETUPF, cur_op(c)),
             Implies(Not(c.res), c.new('Operation.is_finished', cur_op(c))
                     == c.old('Operation.is_finished', cur_op(c))))),
+        ('no-claim-in-progress-created-for-the-target', Implies(
+            Not(claimed(c, 'old')), Not(claimed(c, 'new'))), ['C14', 'C08']),
     ] + eff_grows(c) + append_only(c, True),
     raises=[ExcSpec('Exception', ensures=lambda c: [
-        ('function-not-called', c.gnew('ncalls') == c.gold('ncalls'))]
+        ('function-not-called', c.gnew('ncalls') == c.gold('ncalls')),
+        ('own-failure-flags-untouched', And(
+            c.new(RAISED, cur_op(c)) == c.old(RAISED, cur_op(c)),
+            c.new(SETUPF, cur_op(c)) == c.old(SETUPF, cur_op(c))), ['C08', 'C10']),
+        ('no-claim-in-progress-created-for-the-target', Implies(
+            Not(claimed(c, 'old')), Not(claimed(c, 'new'))), ['C14', 'C08'])]
         + eff_grows(c) + append_only(c, True))],
     modifies=builder_mods,
     lemmas=['PATHS', 'ANC', 'lookup_sanitized', 'sanitized_eqdom'],
@@ -1521,9 +1614,27 @@ BUILD_FILE = call_guard_set(Contract(
         # anything happens
         ExcSpec('RuntimeError', when=REFUSED, guarded=True, forces=True,
                 ensures=no_effect, modifies=NOTHING, props=['C08']),
-        ExcSpec('BaseException', when=lambda c: Not(REFUSED(c)), guarded=True,
+        ExcSpec('Exception', when=lambda c: Not(REFUSED(c)), guarded=True,
+                ensures=lambda c: append_only(c, True) + [
+                    # C10/C14: whatever fails after the target was reserved (moving the old file
+                    # aside, claiming it in the cache, the function itself), the reservation is
+                    # given back: the directories made for it vanish from the virtual view
+                    ('failed-call-releases-its-reservation', Implies(
+                        Not(c.gold('bd_resv')[my_filename(c)]),
+                        Not(c.gnew('bd_resv')[my_filename(c)])), ['C10', 'C14', 'C04']),
+                    # C14 ("the build carries on after a caught error, the cache is rewritten"):
+                    # no claim is left in progress -- Cache.write cannot serialise one
+                    ('failed-call-leaves-no-claim-in-progress', Implies(
+                        Not(claimed(c, 'old')), Not(claimed(c, 'new'))), ['C14', 'C08', 'C10']),
+                    # the record is marked raised here exactly when the function was called
+                    ('raised-iff-function-called',
+                     c.new('ComplexOperation.raised', cur_op(c))
+                     == (c.gnew('ncalls') > c.gold('ncalls')), ['C08', 'C10']),
+                    ('setup-flag-untouched', c.new(SETUPF, cur_op(c)) == c.old(SETUPF, cur_op(c)),
+                     ['C08', 'C10'])]),
+        ExcSpec('KeyboardInterrupt', when=lambda c: Not(REFUSED(c)), guarded=True,
                 ensures=lambda c: append_only(c, True))],
-    modifies=builder_mods,
+    modifies=lambda c: builder_mods(c) + ['g:bd_resv'],
 ), **{'file_backups.FileBackups.back_up_and_remove': build_file_backup_guard})
 CONTRACTS.append(BUILD_FILE)
 
@@ -1685,6 +1796,17 @@ def build_remove_guard(eng, st, args):
              And(p == cf, eng.gread(st, 'wopen_attempts')[cf]), ['C03', 'C02', 'C16'])]
 
 
+def build_commit_guard(eng, st, cargs):
+    """C02: committing (removing the previous build's stale outputs and directories, which cannot
+    be undone) is the last step -- only after the cache file of this build has been written.
+    Everything before it can still fail and must be rolled back."""
+    cf = eng.cur_args['cache_filename'].t
+    return [('commit-only-after-the-cache-file-is-written',
+             And(eng.gread(st, 'wopen_attempts')[cf], eng.gread(st, 'fs_kind')[cf] == K_FILE,
+                 eng.gread(st, 'eff') > eng.gread(eng.entry_state, 'eff')),
+             ['C02', 'C16', 'C03'])]
+
+
 def build_backup_guard(eng, st, cargs):
     return [('moves-only-the-cache-file', cargs['filename'].t == eng.cur_args['cache_filename'].t,
              ['C03', 'C02'])]
@@ -1718,6 +1840,7 @@ BUILD = call_guard_set(Contract(
     modifies=lambda c: BUILD_MODS + BUILD_GHOSTS + ['g:wopen_attempts'],
 ), **{'cache.Cache.write': build_write_guard,
       'file_builder.FileBuilder._roll_back': build_rollback_guard,
+      'file_builder.FileBuilder._commit': build_commit_guard,
       'file_backups.FileBackups.back_up_and_remove': build_backup_guard})
 BUILD.guards = {'remove': build_remove_guard}
 BUILD.callback_havoc = cb_havoc_root
